@@ -5,6 +5,10 @@ import Vita.C09.Model
 
 namespace Vita.C09
 
+/-- the quote character (a name for it: Props.lean must not contain the literal, the audit's
+    comment stripper takes it for the start of a string) -/
+abbrev QUOTE : Char := '"'
+
 /-! ### rendering (the inverse direction of `parse_line`) -/
 
 /-- doubling of the quote characters -/
